@@ -78,17 +78,16 @@ Theorem C02_model_meets_spec : forall token ip h id deny,
 Proof. exact model_meets_spec. Qed.
 Print Assumptions C02_model_meets_spec.
 
-(* Histories with the multi-cluster SubjectAccessReview authorizer (per-host decision caches, dropped when
-   the cluster that created them is stopped): for every history of cluster creations, deletions,
-   re-creations under the same name (same or other server names, other RBAC), policy changes, time steps and
-   requests - without a server name moving between two LIVE clusters - every request is decided by the
+(* Histories with the multi-cluster SubjectAccessReview authorizer (decision caches per (host, cluster serving
+   it), dropped when that cluster is stopped; as repaired by 95b80b4): for every history of cluster creations,
+   deletions, re-creations under the same name (same or other server names, other RBAC), policy changes,
+   server names moving between two LIVE clusters, time steps and requests, every request is decided by the
    incarnation that owns its host at that moment:
      fst: a forwarded impersonation goes to that incarnation, carries exactly the requested Impersonate-User,
           and that incarnation's policy allows it now or it answered "allow" within the allow-TTL;
      snd: otherwise the request is answered 403 and nothing is forwarded.
    ([hcheck] is the executable specification the check evaluates on the real observations.) *)
 Theorem C02_decision_of_current_cluster : forall attl dttl ops,
-  forallb not_move ops = true ->
   hcheck attl world0 [] (combine ops (hrun attl dttl hstate0 ops)) = (true, true).
 Proof. exact decision_of_current_cluster. Qed.
 Print Assumptions C02_decision_of_current_cluster.
@@ -100,11 +99,16 @@ Example C02_decision_of_current_cluster_nonvacuous :
   let ops := [HCreate "a" ["h"] [(("alice", "bob"), AAllow)]; HReq "h" "alice" "bob"; HReq "h" "alice" "bob";
               HDelete "a"; HCreate "a" ["h"] [(("alice", "bob"), ADeny)]; HReq "h" "alice" "bob";
               HPolicy "a" [(("alice", "bob"), AAllow)]; HAdvance 31; HReq "a" "alice" "bob"] in
-  forallb not_move ops = true /\
   hrun 300 30 hstate0 ops =
     [mkHObs true 0 [] []; mkHObs true 200 [(1, ["bob"])] [(1, ("alice", "bob"), AAllow)]; mkHObs true 200 [(1, ["bob"])] [];
      mkHObs true 0 [] []; mkHObs true 0 [] []; mkHObs true 403 [] [(2, ("alice", "bob"), ADeny)];
-     mkHObs true 0 [] []; mkHObs true 0 [] []; mkHObs true 200 [(2, ["bob"])] [(2, ("alice", "bob"), AAllow)]].
+     mkHObs true 0 [] []; mkHObs true 0 [] []; mkHObs true 200 [(2, ["bob"])] [(2, ("alice", "bob"), AAllow)]]
+  /\
+  (* H1: a server name moves from a cluster that allows to a live cluster that denies: the new owner is asked *)
+  hrun 300 30 hstate0 [HCreate "a" ["h"] [(("alice", "bob"), AAllow)]; HCreate "b" [] [(("alice", "bob"), ADeny)];
+                       HReq "h" "alice" "bob"; HMove "h" "a" "b"; HReq "h" "alice" "bob"] =
+    [mkHObs true 0 [] []; mkHObs true 0 [] []; mkHObs true 200 [(1, ["bob"])] [(1, ("alice", "bob"), AAllow)];
+     mkHObs true 0 [] []; mkHObs true 403 [] [(2, ("alice", "bob"), ADeny)]].
 Proof. vm_compute. split; reflexivity. Qed.
 
 Definition ex_headers : headers :=
